@@ -87,6 +87,23 @@ thread_local! {
     static SNAPSHOTS: RefCell<Vec<Snapshot>> = const { RefCell::new(Vec::new()) };
 }
 
+thread_local! {
+    static GATE_LIMIT: Cell<usize> = const { Cell::new(usize::MAX) };
+}
+
+/// Sets (or with `None` removes) a limit on the number of gates a `CircuitBuilder` may hold on this
+/// thread. A builder that grows beyond it panics with a message starting with
+/// `verif_hooks: gate limit`, so that a harness can bound the size of the compilations it observes.
+pub fn set_gate_limit(limit: Option<usize>) {
+    GATE_LIMIT.with(|l| l.set(limit.unwrap_or(usize::MAX)));
+}
+
+pub(crate) fn check_gate_limit(gates: usize) {
+    if gates > GATE_LIMIT.with(|l| l.get()) {
+        panic!("verif_hooks: gate limit exceeded ({gates} gates)");
+    }
+}
+
 /// Switches tracing on or off for the current thread (clears the pending log).
 pub fn set_tracing(on: bool) {
     TRACING.with(|t| t.set(on));
